@@ -38,21 +38,29 @@ def hookOp (s : State) (opn src : String) (v : Option String) (k act : String) :
   let k ← k.toNat?
   let v ← match v with | some x => x.toNat? | none => some 0
   let h ← lookup s src
+  -- `droppanic`: inside `T::clone` the other handle is dropped AND THEN `clone` panics: the library's own reference is
+  -- released by unwinding (unwrap_or_clone) or kept (make_mut / make_unique) — possibly as the LAST owner
+  let dp := act == "droppanic"
   let base : Op ← match opn with
-    | "makeMutH" => some (.makeMut src v false)
-    | "makeUniqueH" => some (.makeUnique src v false)
-    | "unwrapOrCloneH" => some (.unwrapOrClone src false)
+    | "makeMutH" => some (.makeMut src v dp)
+    | "makeUniqueH" => some (.makeUnique src v dp)
+    | "unwrapOrCloneH" => some (.unwrapOrClone src dp)
     | _ => none
   let hk ← match lookup s k with | some x => some x | none => none
   let okSrc := (h.kind = .arc && h.ty = .sized) || (opn == "makeMutH" && h.kind = .offset && h.ty = .sized)
   let okK := k != src && (hk.kind = .arc || hk.kind = .offset || hk.kind = .unionA || hk.kind = .unionB) &&
-    (act == "drop" || act == "cnt" || (act == "getmut" && hk.kind = .arc))
+    (act == "drop" || dp || act == "cnt" || (act == "getmut" && hk.kind = .arc))
   if !(okSrc && okK) then some (s, badOp) else
   let shared := !(Arc.is_unique s.mem h)
   let (s1, o1) := step s base
-  if o1.status != "ok" then some (s, badOp) else
   let pre := if o1.out == "" then "" else o1.out ++ ";"
-  if !shared then some (s1, ok (pre ++ "hook=-")) else
+  if !shared then (if o1.status != "ok" then some (s, badOp) else some (s1, ok (pre ++ "hook=-"))) else
+  if dp then
+    if o1.status != "panic:scripted" then some (s, badOp) else
+    let (s2, o2) := step s1 (.drop k)
+    if o2.status != "ok" then some (s, badOp) else some (s2, panicked "scripted")
+  else
+  if o1.status != "ok" then some (s, badOp) else
   match act with
   | "drop" =>
     let (s2, o2) := step s1 (.drop k)
